@@ -144,3 +144,9 @@ claim("C20", "exploration",
       "Random histories of edits to the model file, to a library file, additions of a library file in a sub-folder, option flips (every simplification/representation option has something to act on in the model), version changes and transfer_model calls (pickle cache in-process; code generation with one subprocess per step); after every transfer the result is compared with an uncached compile of the current sources and options. Every edit gets a logical mtime strictly later than the cache.",
       "equal modification times are never generated; a changed library path always comes with files newer than the cache",
       "DESIGN.md section 4, C20")
+
+claim("C21", "fault_enumeration",
+      "crash/fault injection at the file boundary (open() wrapper crashing after n bytes, strace SIGKILL, post-hoc truncation/garbage) and paused-writer interleavings, with recovery compared against a fresh compile",
+      "For generated models the cache write is crashed after n bytes (quick: ~20 offsets per model incl. 0, 1 and L-1; thorough: every offset for a quarter of the models), complete cache files are truncated at the same offsets or replaced by empty/garbage/garbage-tail content, a child process is SIGKILLed by strace at the write/rename system call, and a writer thread is paused inside its write while a reader runs a complete transfer_model; after every fault the next two transfer_model(cache=True) calls must return models equal to a fresh compile.",
+      "compile step memoised per source (cache logic unmodified); a crash leaves exactly the first n bytes on disk; codegen intermediate files are not crash-enumerated",
+      "DESIGN.md section 4, C21")
